@@ -144,6 +144,18 @@ def Container.insert {α} (cmp : α → α → Int) (c : Container α) (key : α
   | none => (c, false)
   | some path => ({ tree := Tree.fixup (.node .red .nil key .nil) path, count := c.count + 1 }, true)
 
+/-- `container::insert` over an element type whose construction from the key may FAIL (`mk key = none`: `T(key)` raises).
+    The search comes first (utility:378-392) and `make_node` -- allocation, then construction, then the links -- runs only when
+    the key is absent (utility:395-396, 317-325); the exception leaves `insert` before anything is linked or counted, so the
+    caller still holds the container as it was.  `none` = the exception reaches the caller. -/
+def Container.insertMk {α} (cmp : α → α → Int) (mk : α → Option α) (c : Container α) (key : α) : Option (Container α × Bool) :=
+  match Tree.descend cmp key c.tree [] with
+  | none => some (c, false)
+  | some path =>
+    match mk key with
+    | none => none
+    | some x => some ({ tree := Tree.fixup (.node .red .nil x .nil) path, count := c.count + 1 }, true)
+
 /-- The intrusive flavour `rb_tree::chain<Node>`: a duplicate is not linked, but `count` is bumped regardless. -/
 structure Chain (α : Type) where
   tree : Tree α := .nil
